@@ -3,7 +3,7 @@
 (* S2 at column level (C02, C13; namings for C08; C16 uses its positions). *)
 (* A behaviour BUILDS one data-moving statement in a few steps; the        *)
 (* finished state is a program:                                            *)
-(*   Start(kind)            insert | insert_cols | ctas                     *)
+(*   Start(kind)            insert | insert_cols | ctas | update            *)
 (*   AddTbl(schema, name, alias)     a table in the FROM scope              *)
 (*   AddSub(alias, schema, name, inner)  a derived table over one table;   *)
 (*                          inner = its select list: Seq of [col, alias]   *)
@@ -81,8 +81,13 @@ AddItem == /\ phase = "items" /\ Len(items) < MaxItems /\ branch2 = <<>>
 \* second branch of a set operation: one table, one single-column item per position
 AddBranch == /\ phase = "items" /\ WithUnion /\ Len(items) >= 1 /\ branch2 = <<>>
              /\ \A i \in DOMAIN items : Len(items[i].refs) <= 1 /\ (Len(items[i].refs) = 1 => items[i].refs[1].c # Star)
-             /\ \E s \in Schemas, n \in Bare :
-                  branch2' = <<[s |-> s, n |-> n, cols |-> [i \in DOMAIN items |-> IF i = 1 THEN "y" ELSE IF i = 2 THEN "z" ELSE "w"]]>>
+             \* the second branch reads its table directly or through a derived table whose alias comes from the same pool as the
+             \* first branch's derived tables (a statement-local name re-used in another scope)
+             \* its column names are its own (y, z, w) or the names the first branch's relations use, at other positions (d, c, e)
+             /\ \E s \in Schemas, n \in Bare, al \in SAliases \cup {None}, shared \in BOOLEAN :
+                  branch2' = <<[s |-> s, n |-> n, al |-> al,
+                                cols |-> [i \in DOMAIN items |-> IF shared THEN (IF i = 1 THEN "d" ELSE IF i = 2 THEN "c" ELSE "e")
+                                                                            ELSE (IF i = 1 THEN "y" ELSE IF i = 2 THEN "z" ELSE "w")]]>>
              /\ UNCHANGED <<kind, rels, items, collist, known, tk, phase>>
 Tables == {TblName(rels[i]) : i \in {j \in DOMAIN rels : rels[j].k = "tbl" /\ rels[j].s # None}}    \* metadata is about schema-qualified tables
 HasStar == \E i \in DOMAIN items : Len(items[i].refs) = 1 /\ items[i].refs[1].c = Star
@@ -90,6 +95,10 @@ Finish == /\ phase = "items" /\ Len(items) >= 1
           /\ \E cl \in {<<>>, [i \in DOMAIN items |-> IF i = 1 THEN "p" ELSE IF i = 2 THEN "q" ELSE "r"]}, kn \in SUBSET (IF WithMeta THEN Tables ELSE {}),
                 t \in (IF WithMeta THEN BOOLEAN ELSE {FALSE}) :
                /\ (cl # <<>> <=> kind = "insert_cols")
+               \* UPDATE tgt SET name = expression, ... FROM relations: one assignment per item, named by the item; references
+               \* are qualified (unqualified, the target's own columns would be in scope too)
+               /\ (kind = "update" => /\ ~HasStar /\ branch2 = <<>> /\ ~t
+                                      /\ \A j \in DOMAIN items, m \in 1..2 : m <= Len(items[j].refs) => items[j].refs[m].r \in 1..Len(rels))
                /\ (kind = "insert_cols" => ~HasStar)
                \* the provider may know the target table (written schema-qualified then): as many columns as the statement has items
                /\ (t => kind \in {"insert", "insert_cols"} /\ ~HasStar)
@@ -110,6 +119,7 @@ IsKnown(r) == r.k = "tbl" /\ TblName(r) \in known
 QualifiedCols(i) == UNION {{items[j].refs[m].c : m \in {x \in 1..2 : x <= Len(items[j].refs) /\ items[j].refs[x].r = i}} : j \in DOMAIN items} \ {Star}
 \* a derived table over table T that selects column c establishes that T has c
 InnerCols(t) == UNION {{rels[j].inner[m].c : m \in DOMAIN rels[j].inner} : j \in {x \in DOMAIN rels : rels[x].k = "sub" /\ TblName(rels[x]) = t}}
+                \cup (IF branch2 # <<>> /\ TblName([s |-> branch2[1].s, n |-> branch2[1].n]) = t THEN ToSet(branch2[1].cols) ELSE {})
 KnownCols(i) == LET r == rels[i] IN
    (IF r.k = "sub" THEN {SubOut(r)[j].name : j \in DOMAIN r.inner} ELSE InnerCols(TblName(r)))
    \cup (IF IsKnown(r) THEN ToSet(MetaCols(TblName(r))) ELSE {})
@@ -144,9 +154,19 @@ FlowBranch2 == IF branch2 = <<>> THEN {}
                ELSE {<<Col(TblName([s |-> branch2[1].s, n |-> branch2[1].n]), branch2[1].cols[j]), TgtName(j)>> : j \in DOMAIN items}
 Flow == UNION {FlowItem(j) : j \in DOMAIN items} \cup FlowBranch2
 \* two relations of one scope both known to have an unqualified column: not valid SQL
+\* ... unless it is the provider's metadata (and nothing in the statement itself) that lists the column for each of them:
+\* the JOIN ... USING (c) case - the column is then attributed to every in-scope table whose metadata lists it
+MetaHas(i, c) == IsKnown(rels[i]) /\ c \in ToSet(MetaCols(TblName(rels[i])))
+GraphCols(i) == LET r == rels[i] IN
+   (IF r.k = "sub" THEN {SubOut(r)[j].name : j \in DOMAIN r.inner} ELSE InnerCols(TblName(r))) \cup QualifiedCols(i)
+   \* a wildcard over the relation, expanded from metadata, is evidence in the statement too (mixed evidence is outside the grammar)
+   \cup (IF r.k = "tbl" /\ IsKnown(r) /\ (\E j \in DOMAIN items : Len(items[j].refs) = 1 /\ items[j].refs[1].c = Star /\ items[j].refs[1].r \in {0, i})
+        THEN ToSet(MetaCols(TblName(r))) ELSE {})
 ValidColumns == \A j \in DOMAIN items, m \in 1..2 :
    (m <= Len(items[j].refs) /\ items[j].refs[m].r = 0 /\ items[j].refs[m].c # Star /\ Len(rels) > 1)
-      => Cardinality({i \in DOMAIN rels : items[j].refs[m].c \in KnownCols(i)}) <= 1
+      => LET c == items[j].refs[m].c
+             S == {i \in DOMAIN rels : c \in KnownCols(i)} IN
+         Cardinality(S) <= 1 \/ ((\A i \in S : MetaHas(i, c)) /\ (\A i \in DOMAIN rels : c \notin GraphCols(i)))
 \* a qualified reference to a derived table names one of its output columns
 ValidSubRefs == \A j \in DOMAIN items, m \in 1..2 :
    (m <= Len(items[j].refs) /\ items[j].refs[m].r > 0 /\ items[j].refs[m].r # Foreign /\ rels[items[j].refs[m].r].k = "sub" /\ items[j].refs[m].c # Star)
